@@ -835,6 +835,243 @@ def rule_r12(prog, res):
                         'portType operation' % unparse(parent))
 
 
+# ------------------------------------------------------------------ R13
+_SET_MUTATORS = ('difference_update', 'intersection_update', 'update',
+                 'symmetric_difference_update', 'remove', 'discard', 'clear',
+                 'pop', 'add')
+
+
+def rule_r13(prog, res):
+    res.rule('R13', 'rendering does not consume the dependency graph: the '
+             'sorter works on its own sets, and the message elements the WSDL '
+             'refers to are pinned to the target namespace at both ends')
+    m = prog.module('spyne.util.toposort')
+    f = m.functions.get('toposort2')
+    if f is None:
+        raise AnalysisError('toposort2', 'not found')
+    param = f.params()[0]
+    # names bound to values of the caller's mapping
+    aliases = {}
+    for n in walk_no_defs(f.node):
+        if isinstance(n, (ast.For, ast.comprehension)):
+            it = unparse(n.iter)
+            if it in ('%s.items()' % param, '%s.values()' % param):
+                tgt = n.target
+                v = tgt.elts[-1] if isinstance(tgt, ast.Tuple) else tgt
+                if isinstance(v, ast.Name):
+                    aliases.setdefault(v.id, []).append(n)
+    res.floor('R13', 'iterations over the caller\'s mapping', len(aliases), 1)
+    rebinds = sorted([a for a in walk_no_defs(f.node) if isinstance(
+        a, ast.Assign) and any(isinstance(t, ast.Name) and t.id == param
+                               for t in a.targets)], key=lambda a: a.lineno)
+
+    def fresh_values(a):
+        # the value expression stores new sets (dep - x, set(dep), copy())
+        txt = unparse(a.value)
+        pairs = [e for e in ast.walk(a.value) if isinstance(e, ast.Tuple) and
+                 len(e.elts) == 2]
+        vals = [e.elts[1] for e in pairs]
+        if isinstance(a.value, ast.DictComp):
+            vals.append(a.value.value)
+        return bool(vals) and all(isinstance(v, (ast.BinOp, ast.Call))
+                                  for v in vals)
+    bad = []
+    for n in walk_no_defs(f.node):
+        tgt = None
+        if isinstance(n, ast.AugAssign) and isinstance(n.target, ast.Name) \
+                and n.target.id in aliases:
+            tgt = (n, n.target.id, unparse(n))
+        if isinstance(n, ast.Call) and isinstance(n.func, ast.Attribute) and \
+                n.func.attr in _SET_MUTATORS and isinstance(
+                    n.func.value, ast.Name) and n.func.value.id in aliases:
+            # removing the self-dependency is idempotent and documented
+            keyvars = set()
+            for it in aliases[n.func.value.id]:
+                if isinstance(it.target, ast.Tuple):
+                    keyvars.add(unparse(it.target.elts[0]))
+            if n.func.attr == 'discard' and len(n.args) == 1 and \
+                    unparse(n.args[0]) in keyvars:
+                continue
+            tgt = (n, n.func.value.id, unparse(n))
+        if tgt is None:
+            continue
+        prev = [a for a in rebinds if a.lineno < tgt[0].lineno]
+        # in a loop the rebinding below reaches the top as well
+        loop_prev = [a for a in rebinds if fresh_values(a)]
+        owned = bool(prev) and fresh_values(prev[-1]) and \
+            len(loop_prev) == len(rebinds)
+        if not owned:
+            bad.append(tgt)
+    res.ob('R13', f.where, 'toposort2: %d in-place updates of sets that may '
+           'belong to the caller' % len(bad), 'VIOLATED' if bad else 'ok')
+    for n, nm, txt in bad[:2]:
+        res.finding('R13', 'toposort2|caller-sets-mutated|%s' % txt[:30],
+                    '%s:%d' % (f.module.relpath, n.lineno),
+                    'toposort2 updates %s in place (%s) while it may still be '
+                    'one of the sets of the mapping it was given '
+                    '(Interface.deps): after the first rendering every class '
+                    'has lost its dependencies, so a second document object '
+                    'renders the classes in another order' % (nm, txt[:40]))
+    # message elements: name and namespace pinned together
+    d = prog.module('spyne.decorator')
+    k = 0
+    for fn in d.functions.values():
+        for c in calls_in(fn.node):
+            if call_name(c) != 'customize':
+                continue
+            kws = {kw.arg for kw in c.keywords}
+            if 'sub_name' not in kws:
+                continue
+            k += 1
+            ok = 'sub_ns' in kws
+            where = '%s:%d' % (d.relpath, c.lineno)
+            res.ob('R13', where, '%s: %s' % (fn.qualname, unparse(c)[:70]),
+                   'ok' if ok else 'VIOLATED')
+            if not ok:
+                res.finding('R13', '%s|element-namespace-not-pinned' %
+                            fn.qualname, where, '%s names the message element '
+                            'of a bare method (sub_name=) without pinning '
+                            'its namespace (sub_ns=): get_element_name_ns '
+                            'falls back to the namespace of the argument '
+                            'type, while the xs:element and wsdl:message are '
+                            'defined in the target namespace - the part and '
+                            'message references of the WSDL dangle' %
+                            fn.qualname)
+    res.floor('R13', 'message element namings in the decorator', k, 2)
+
+
+# ------------------------------------------------------------------ R14
+def _fold_type_set(prog, c, depth=0):
+    """The class-level ``type`` set of a protocol class, folded from the
+    class body (set(Base.type), add/update/discard)."""
+    val = None
+    for st in c.node.body:
+        if isinstance(st, ast.Assign) and any(
+                isinstance(t, ast.Name) and t.id == 'type'
+                for t in st.targets):
+            v = st.value
+            if isinstance(v, ast.Call) and call_name(v) == 'set':
+                if not v.args:
+                    val = set()
+                elif isinstance(v.args[0], ast.Attribute) and \
+                        v.args[0].attr == 'type' and depth < 6:
+                    base = None
+                    for b in prog.mro(c)[1:]:
+                        if getattr(b, 'name', None) == unparse(
+                                v.args[0].value):
+                            base = b
+                    if base is None:
+                        return None
+                    val = _fold_type_set(prog, base, depth + 1)
+                    if val is None:
+                        return None
+                    val = set(val)
+                elif isinstance(v.args[0], (ast.Tuple, ast.List, ast.Set)):
+                    val = {e.value for e in v.args[0].elts
+                           if isinstance(e, ast.Constant)}
+                else:
+                    return None
+            else:
+                return None
+        elif isinstance(st, ast.Expr) and isinstance(st.value, ast.Call) and \
+                isinstance(st.value.func, ast.Attribute) and \
+                unparse(st.value.func.value) == 'type' and val is not None:
+            op, args = st.value.func.attr, st.value.args
+            consts = []
+            for a in args:
+                if isinstance(a, ast.Constant):
+                    consts.append(a.value)
+                elif isinstance(a, (ast.Tuple, ast.List, ast.Set)):
+                    consts.extend(e.value for e in a.elts
+                                  if isinstance(e, ast.Constant))
+            if op == 'add':
+                val.add(consts[0])
+            elif op == 'update':
+                val.update(consts)
+            elif op in ('discard', 'remove'):
+                val.discard(consts[0])
+            else:
+                return None
+    if val is None:
+        for b in prog.mro(c)[1:]:
+            if hasattr(b, 'node') and depth < 6:
+                return _fold_type_set(prog, b, depth + 1)
+    return val
+
+
+def rule_r14(prog, res):
+    res.rule('R14', 'the WSDL binding extension namespace selected for a '
+             'protocol is the one of the protocol\'s own SOAP version '
+             '(decision list evaluated over the folded type sets)')
+    m = prog.module('spyne.const.xml')
+    f = m.functions.get('get_binding_ns')
+    if f is None:
+        raise AnalysisError('get_binding_ns', 'not found')
+    param = f.params()[0]
+    # decision list: [(literal or None, returned name)]
+    decisions = []
+
+    def walk(stmts):
+        for st in stmts:
+            if isinstance(st, ast.If):
+                t = st.test
+                lit = None
+                if isinstance(t, ast.Compare) and len(t.ops) == 1 and \
+                        isinstance(t.ops[0], ast.In) and isinstance(
+                            t.left, ast.Constant) and \
+                        unparse(t.comparators[0]) == param:
+                    lit = t.left.value
+                if lit is None:
+                    return False
+                rets = [r for r in st.body if isinstance(r, ast.Return)]
+                if len(rets) != 1:
+                    return False
+                decisions.append((lit, unparse(rets[0].value)))
+                if st.orelse:
+                    if not walk(st.orelse):
+                        return False
+            elif isinstance(st, ast.Return):
+                decisions.append((None, unparse(st.value)))
+            elif isinstance(st, ast.Expr) and isinstance(
+                    st.value, ast.Constant):
+                continue
+            else:
+                return False
+        return True
+    if not walk(f.node.body) or not decisions:
+        res.unclass('R14', f.where, 'get_binding_ns is no longer a decision '
+                    'list of membership tests')
+        return
+    expected = (('spyne.protocol.soap.soap11:Soap11', 'WSDL11_SOAP'),
+                ('spyne.protocol.soap.soap12:Soap12', 'WSDL11_SOAP12'),
+                ('spyne.protocol.http:HttpRpc', 'WSDL11_HTTP'))
+    n = 0
+    for cfq, want in expected:
+        c = prog.cls(cfq)
+        ts = _fold_type_set(prog, c)
+        if ts is None:
+            res.unclass('R14', c.where, 'type set of %s not foldable' % c.name)
+            continue
+        n += 1
+        got = None
+        for lit, ret in decisions:
+            if lit is None or lit in ts:
+                got = ret
+                break
+        ok = got == want
+        res.ob('R14', f.where, '%s.type = %s selects %s' % (
+            c.name, sorted(ts), got), 'ok' if ok else 'VIOLATED')
+        if not ok:
+            res.finding('R14', 'get_binding_ns|%s|%s' % (c.name, got),
+                        f.where, 'for %s (type set %s) get_binding_ns '
+                        'returns %s instead of %s: the binding, operation, '
+                        'body and address extension elements of its WSDL are '
+                        'written in the wrong namespace, so a client '
+                        'generated from the WSDL speaks the other SOAP '
+                        'version' % (c.name, sorted(ts), got, want))
+    res.floor('R14', 'protocol type sets folded', n, 3)
+
+
 def run(prog, res, tier):
     res.run_rule(rule_r1, prog, res, tier)
     res.run_rule(rule_r2, prog, res)
@@ -848,6 +1085,8 @@ def run(prog, res, tier):
     res.run_rule(rule_r10, prog, res)
     res.run_rule(rule_r11, prog, res)
     res.run_rule(rule_r12, prog, res)
+    res.run_rule(rule_r13, prog, res)
+    res.run_rule(rule_r14, prog, res)
 
 
 _S = 'spyne/interface/xml_schema/_base.py'
@@ -856,6 +1095,31 @@ _I = 'spyne/interface/_base.py'
 _T = 'spyne/util/toposort.py'
 
 MUTANTS = [
+    Mutant('toposort-consumes-caller-sets', 'R13', 'fire', _T,
+           in_func('toposort2',
+                   "        data = dict([(item, (dep - ordered)) for item,dep "
+                   "in data.items()\n",
+                   "        for dep in data.values():\n"
+                   "            dep -= ordered\n"
+                   "        data = dict([(item, dep) for item,dep "
+                   "in data.items()\n"), 'caller-sets-mutated'),
+    Mutant('bare-in-element-namespace-dropped', 'R13', 'fire',
+           'spyne/decorator.py',
+           in_func('_produce_input_message',
+                   "message.customize(sub_name=in_message_name, sub_ns=ns)",
+                   "message.customize(sub_name=in_message_name)"),
+           'element-namespace-not-pinned'),
+    Mutant('soap12-keeps-soap11-tag', 'R14', 'fire',
+           'spyne/protocol/soap/soap12.py',
+           in_func('Soap12', "    type.discard('soap11')\n", ""),
+           None, also=[('spyne/const/xml.py',
+                        in_func('get_binding_ns',
+                                "    if 'soap12' in protocol_type:\n"
+                                "        return WSDL11_SOAP12\n    elif",
+                                "    if 'soap11' in protocol_type:\n"
+                                "        return WSDL11_SOAP\n"
+                                "    elif 'soap12' in protocol_type:\n"
+                                "        return WSDL11_SOAP12\n    elif"))]),
     Mutant('wsdl-caches-survive-build', 'R12', 'fire',
            'spyne/interface/wsdl/wsdl11.py',
            in_func('Wsdl11.build_interface_document',
@@ -967,9 +1231,15 @@ MUTANTS = [
                    "imports = self.interface.imports[self.interface.nsmap["
                    "pref]]\n            for namespace in imports:",
                    regex=True), 'imports'),
+    Mutant('toposort-ties-in-set-order', 'R1', 'fire', _T,
+           in_func('toposort2',
+                   "ordered = [item for item,dep in data.items() if len(dep) "
+                   "== 0]",
+                   "ordered = set(item for item,dep in data.items() if "
+                   "len(dep) == 0)"), 'ordered'),
     Mutant('toposort-tier-unsorted', 'R1', 'fire', _T,
            in_func('toposort2', "yield sorted(ordered, key=lambda x:repr(x))",
-                   "yield list(ordered)"), 'ordered'),
+                   "yield list(set(ordered))"), 'ordered'),
     Mutant('twin-sorted-key', 'R1', 'benign', _S,
            in_func('XmlSchema.build_schema_nodes',
                    r"for namespace in sorted\(\s*self\.interface\.imports\["
